@@ -33,8 +33,7 @@ def handle (op : String) (args : List String) : Option String :=
   | "c04.header" => do
       let bs ← run pBytes args
       pure (resStr (fun (p : Header × Bytes) => headerStr p.1 ++ s!" rest {p.2.length}") (parseHeader bs))
-  | "c04.holds.roundtrip" | "c04.holds.pointcloud_index_buffer_witness" | "c04.holds.name_with_blank_witness"
-  | "c04.holds.name_collision_witness" => do
+  | "c04.holds.roundtrip" | "c04.holds.pointcloud_index_buffer_witness" => do
       let (cfg, m, back) ← run (do let c ← pCfg; let m ← pMesh; let b ← pOkMesh; pure (c, m, b)) args
       pure (boolStr (RoundTrips codingF cfg m back))
   | "c04.holds.header_describes" => do
@@ -43,6 +42,9 @@ def handle (op : String) (args : List String) : Option String :=
   | "c04.holds.encodings_agree" | "c04.holds.uchar_scalar_ascii_agrees" => do
       let (a, b, c) ← run (do let a ← pOkMesh; let b ← pOkMesh; let c ← pOkMesh; pure (a, b, c)) args
       pure (boolStr (meshEq a b && meshEq b c))
+  | "c04.holds.bad_name_write_rejected" =>
+      -- args: result class of MeshWriter.Write, number of bytes written: an error and nothing written
+      some (boolStr (match args with | ["err", "0"] => true | _ => false))
   | "c04.holds.header_cut_rejected" =>
       -- args: cut position, result class of ply.ReadHeader on the strict prefix; theorem ply_header_cut_bytes: an error
       some (boolStr (match args with | [_, "err"] => true | _ => false))
